@@ -353,6 +353,7 @@ def c16(rec, tier):
     f9_casts.run_library_indexers(rec, F)
     f9_casts.run_vm_sizes(rec, F)
     f4_vm.hook_exit(rec, F)
+    f4_vm.callback_exit(rec, F)
     f4_gc.growth_progress(rec, F)
     f8_hazards.run(rec, F)
     f4_exc.run_native_env(rec, F, S)
